@@ -1,3 +1,4 @@
+import VaxisModel.Lemmas.VxfwNoStuck
 import VaxisModel.Model.Vxfw
 import VaxisModel.Spec.Routing
 import VaxisModel.Lemmas.Vxfw
@@ -343,6 +344,27 @@ theorem commands_once_history (o : Oracle) (fuel : Nat) (root : Id) (t0 : STree)
   intro e
   have := hc e
   simpa [St.init] using this
+
+/-- **commands_once over whole histories, without the budget hypothesis**, for handlers that do not answer a
+FocusIn / FocusOut notification with a command containing a focus command (`NotifFF`; answers to every other
+call — key, mouse, custom events in all phases, MouseEnter / MouseLeave, Init — are arbitrary, focus commands and
+nested batches included): the nesting `handleCommand → focusWidget → handler → handleCommand` is then at most
+two deep, so with any budget ≥ 2 (Go: any stack) `stuck` never becomes true (`run_never_stuck`) and every command
+returned anywhere in the history takes effect exactly once. `Witness.F115c` shows the condition cannot simply
+be dropped: handlers that refocus each other from FocusIn exhaust every budget (a stack overflow in Go). -/
+theorem commands_once_history_wf (o : Oracle) (hff : NotifFF o) (fuel : Nat) (hf : 2 ≤ fuel) (root : Id) (t0 : STree)
+    (steps : List Step) :
+    (runSteps o fuel (runInit o fuel root t0) steps).stuck = false ∧
+    (effectsIn (runSteps o fuel (runInit o fuel root t0) steps).trace).Perm
+      (owed o.h 0 (runSteps o fuel (runInit o fuel root t0) steps).trace) :=
+  ⟨run_never_stuck o hff fuel hf root t0 steps,
+   commands_once_history o fuel root t0 steps (run_never_stuck o hff fuel hf root t0 steps)⟩
+
+/-- Non-vacuity: an oracle that answers key events with focus commands (and notifications with redraw) meets
+`NotifFF`. -/
+example : NotifFF ⟨fun w ev _ _ => match ev with | .key _ => .batch [.focus (w + 1), .consume] | _ => .redraw, fun _ => true⟩ := by
+  intro w ph k
+  constructor <;> intro a ha <;> simp [Cmd.flatten] at ha <;> subst ha <;> intro w' h <;> cases h
 
 /-- Non-vacuity: Init, a key whose capture handler answers a batch with a focus command, FocusOut
 answering a batch, a mouse event, a terminal FocusIn: ten effects, each once, in another order. -/
